@@ -171,6 +171,16 @@ func cmdCheck(args []string) int {
 	sort.Slice(results, func(i, j int) bool { return results[i].Name < results[j].Name })
 	genS := time.Since(start).Seconds() - loadS
 
+	openKnown := map[string]bool{}
+	if data, err := os.ReadFile(*known); err == nil {
+		var pre []KnownFinding
+		json.Unmarshal(data, &pre)
+		for _, k := range pre {
+			if k.Property == *prop && k.Status == "open" {
+				openKnown[k.Obligation] = true
+			}
+		}
+	}
 	quickS, fullS := 5, 45
 	if *tier == "thorough" {
 		quickS, fullS = 10, 120
@@ -232,7 +242,11 @@ func cmdCheck(args []string) int {
 			os.WriteFile(filepath.Join(*dumpAll, sanitize(rep.Name)+".smt2"), []byte(q+"(check-sat)\n"), 0o644)
 		}
 		var res SolveResult
-		if ob.Kind == "cover" {
+		if openKnown[rep.Name] {
+			// an obligation listed as an open known finding is expected not to be discharged: one
+			// short attempt (if it is discharged after all, the finding simply is not hit)
+			res = solveQuick(q+"(check-sat)\n", fmt.Sprintf("%d", i), quickS)
+		} else if ob.Kind == "cover" {
 			// a satisfiability probe: a short attempt is enough (unknown counts as reachable)
 			res = solveQuick(q+"(check-sat)\n", fmt.Sprintf("%d", i), quickS)
 		} else {
